@@ -107,7 +107,8 @@ def transform_tree(repo, native=False):
         base = os.path.basename(owner)
         # non-mod-rs files resolve #[path] relative to their own directory
         out[os.path.join(odir, mod + '.rs')] = src
-        texts[owner] += '\n#[cfg(kani)]\n#[path = "%s.rs"]\npub(crate) mod %s;\n' % (mod, mod)
+        vis = 'pub' if owner.endswith('/lib.rs') else 'pub(crate)'
+        texts[owner] += '\n#[cfg(kani)]\n#[path = "%s.rs"]\n%s mod %s;\n' % (mod, vis, mod)
     # stub routing prologues
     for r in load_routes():
         rel = r['file']
